@@ -7,7 +7,11 @@ package main
 //   frame/getenv-callers        os.Getenv is called only by values.SetFromEnv, which is called only by mkOpt and mkArg
 //   frame/no-goroutines/<f>     f starts no goroutine and uses no channel or select (sequential subset)
 //   frame/setbyuser-writer/<f>  only fsm.fillContainers stores through the pointer held in Container.ValueSetByUser
-//   frame/spec-writer/<f>       only Cmd.doInit (which synthesises the default spec) assigns Cmd.Spec inside the library
+//   frame/cmd-field-writers/<f> each field of Cmd is assigned, inside the library, only by the functions whose job it is
+//                               (Spec, fsm, parents: doInit; commands: Command; options: mkOpt; args: mkArg; the user-facing
+//                               fields Action/Before/After/LongDesc/Hidden/ErrorHandling/desc/name/aliases/init: nobody);
+//                               the composite literals of App and Command (a fresh object) are not assignments
+//   frame/process-globals/<f>   no library function reads os.Args
 
 import (
 	"fmt"
@@ -17,6 +21,19 @@ import (
 
 	"golang.org/x/tools/go/ssa"
 )
+
+// which library functions may assign which field of Cmd (outside the composite literal that creates the command)
+var cmdFieldWriters = map[string]map[string]bool{
+	"Spec":       {"mow.cli.(*Cmd).doInit": true},
+	"fsm":        {"mow.cli.(*Cmd).doInit": true},
+	"parents":    {"mow.cli.(*Cmd).doInit": true},
+	"commands":   {"mow.cli.(*Cmd).Command": true},
+	"options":    {"mow.cli.(*Cmd).mkOpt": true},
+	"args":       {"mow.cli.(*Cmd).mkArg": true},
+	"Action":     {"mow.cli.ActionCommand$1": true}, // the initialiser ActionCommand returns sets the action of the new command
+	"optionsIdx": {},
+	"argsIdx":    {},
+}
 
 var allowedGlobalReads = map[string]bool{
 	"stdOut": true, "stdErr": true, "exiter": true, "errHelpRequested": true, "errVersionRequested": true,
@@ -46,7 +63,7 @@ func (x *Exec) frameSweep() {
 			continue
 		}
 		name := shortPkg(pkg) + "." + k[strings.Index(k, "::")+2:]
-		var writes, reads, conc, sbu, specw []string
+		var writes, reads, conc, sbu, specw, procg []string
 		for _, b := range fn.Blocks {
 			for _, in := range b.Instrs {
 				switch in := in.(type) {
@@ -58,8 +75,12 @@ func (x *Exec) frameSweep() {
 					if fa, ok := in.Addr.(*ssa.FieldAddr); ok {
 						if pt, ok := fa.X.Type().Underlying().(*types.Pointer); ok {
 							if nt, ok := pt.Elem().(*types.Named); ok && nt.Obj().Name() == "Cmd" {
-								if stt, ok := nt.Underlying().(*types.Struct); ok && stt.Field(fa.Field).Name() == "Spec" {
-									specw = append(specw, x.posStr(in.Pos()))
+								if stt, ok := nt.Underlying().(*types.Struct); ok {
+									fname := stt.Field(fa.Field).Name()
+									_, fresh := rootOf(in.Addr).(*ssa.Alloc) // the composite literal of a new command
+									if !fresh && !cmdFieldWriters[fname][name] {
+										specw = append(specw, "Cmd."+fname+" at "+x.posStr(in.Pos()))
+									}
 								}
 							}
 						}
@@ -75,6 +96,9 @@ func (x *Exec) frameSweep() {
 						}
 					}
 				case *ssa.UnOp:
+					if g, ok := rootOf(in.X).(*ssa.Global); ok && g.Pkg != nil && g.Pkg.Pkg.Path() == "os" && g.Name() == "Args" {
+						procg = append(procg, "os.Args at "+x.posStr(in.Pos()))
+					}
 					if g, ok := rootOf(in.X).(*ssa.Global); ok && x.repoPkgs[g.Pkg.Pkg.Path()] {
 						if !allowedGlobalReads[g.Name()] {
 							reads = append(reads, g.Name()+" at "+x.posStr(in.Pos()))
@@ -106,7 +130,8 @@ func (x *Exec) frameSweep() {
 		add("global-reads/"+name, len(reads) == 0, strings.Join(reads, "; "))
 		add("no-goroutines/"+name, len(conc) == 0, strings.Join(conc, "; "))
 		add("setbyuser-writer/"+name, len(sbu) == 0 || name == "fsm.fillContainers", "writes *ValueSetByUser at "+strings.Join(sbu, "; "))
-		add("spec-writer/"+name, len(specw) == 0 || name == "mow.cli.(*Cmd).doInit", "assigns Cmd.Spec at "+strings.Join(specw, "; "))
+		add("cmd-field-writers/"+name, len(specw) == 0, "assigns "+strings.Join(specw, "; "))
+		add("process-globals/"+name, len(procg) == 0, "reads "+strings.Join(procg, "; "))
 	}
 	okGetenv := len(getenvCallers) == 1 && getenvCallers["values.SetFromEnv"]
 	okCallers := true
